@@ -15,4 +15,4 @@ def run(chk):
     n = 24 if chk.tier == 'quick' else 400
     with V.Scratch() as d:
         t3common.delayed_traces(chk, d, n)
-        t3common.stress(chk, d, 12 if chk.tier == 'quick' else 300, modes=(0, 4), keys=("blocks_left_behind", "abandoned_left_behind", "lost_block", "alloc_failed"))
+        t3common.stress(chk, d, 60 if chk.tier == 'quick' else 600, modes=(0, 4), keys=("blocks_left_behind", "abandoned_left_behind", "lost_block", "alloc_failed"))
